@@ -11,7 +11,12 @@ static bool spec_inv_ranges(void)
     bool ok = true;
     for(size_t k = 0; k < ENV_N_MIDI_CHANNELS; k++)
         ok = ok && g_midiChannels_storage[k].volume <= 127 && g_midiChannels_storage[k].expression <= 127 &&
-             g_midiChannels_storage[k].brightness <= 127 && g_midiChannels_storage[k].patch <= 127;
+             g_midiChannels_storage[k].brightness <= 127 && g_midiChannels_storage[k].patch <= 127 &&
+             /* pitch-bend sensitivity parts are byte-sized (set from a controller value or the defaults 2/0): no overflow in msb*128+lsb */
+             g_midiChannels_storage[k].bendsense_msb >= 0 && g_midiChannels_storage[k].bendsense_msb <= 255 &&
+             g_midiChannels_storage[k].bendsense_lsb >= 0 && g_midiChannels_storage[k].bendsense_lsb <= 255 &&
+             g_midiChannels_storage[k].def_bendsense_msb >= 0 && g_midiChannels_storage[k].def_bendsense_msb <= 255 &&
+             g_midiChannels_storage[k].def_bendsense_lsb >= 0 && g_midiChannels_storage[k].def_bendsense_lsb <= 255;
     return ok;
 }
 #define RT_REQUIRES __CPROVER_requires(ENV_CHANNELS_OK && spec_inv_ranges())
@@ -24,28 +29,36 @@ extern unsigned g_other_calls;
 #define CALLEE(decl) decl __CPROVER_requires(midCh < (long)g_play.m_midiChannels_size && midCh >= 0) __CPROVER_assigns(g_other_calls) __CPROVER_ensures(g_other_calls == __CPROVER_old(g_other_calls) + 1)
 void noteUpdateAll(size_t midCh, unsigned props_mask)
 __CPROVER_requires(midCh < g_play.m_midiChannels_size) __CPROVER_assigns(g_update_calls) __CPROVER_ensures(g_update_calls == __CPROVER_old(g_update_calls) + 1);
+/* updatePortamento, setRPN: REAL bodies (extracted), proved against these contracts in their own groups and used by
+ * contract at the call sites in realTime_Controller */
+double pow(double x, double y) __CPROVER_requires(1) __CPROVER_assigns() __CPROVER_ensures(1);   /* libm: any double */
+double exp(double x) __CPROVER_requires(x >= 0.0 && x <= 25.0) __CPROVER_assigns() __CPROVER_ensures(__CPROVER_return_value >= 1.0 && __CPROVER_return_value <= 1.0e11);   /* exp on [0, 25] */
 void updatePortamento(size_t midCh)
-__CPROVER_requires(midCh < g_play.m_midiChannels_size) __CPROVER_assigns(g_other_calls) __CPROVER_ensures(g_other_calls == __CPROVER_old(g_other_calls) + 1);
+__CPROVER_requires(midCh < g_play.m_midiChannels_size && ENV_CHANNELS_OK && spec_inv_ranges()) __CPROVER_assigns(g_midiChannels_storage) __CPROVER_ensures(spec_inv_ranges());
 void setRPN(size_t midCh, unsigned value, bool MSB)
-__CPROVER_requires(midCh < g_play.m_midiChannels_size) __CPROVER_assigns(g_other_calls) __CPROVER_ensures(g_other_calls == __CPROVER_old(g_other_calls) + 1);
+__CPROVER_requires(midCh < g_play.m_midiChannels_size && value <= 255 && ENV_CHANNELS_OK && spec_inv_ranges()) __CPROVER_assigns(g_midiChannels_storage) __CPROVER_ensures(spec_inv_ranges());
 void noteOff(size_t midCh, uint8_t note, bool forceNow)
 __CPROVER_requires(midCh < g_play.m_midiChannels_size) __CPROVER_assigns(g_other_calls) __CPROVER_ensures(g_other_calls == __CPROVER_old(g_other_calls) + 1);
 void killSustainingNotes(int32_t midCh, int32_t this_adlchn, uint32_t sustain_type)
 __CPROVER_requires(midCh >= -1 && midCh < (int32_t)g_play.m_midiChannels_size) __CPROVER_assigns(g_other_calls) __CPROVER_ensures(g_other_calls == __CPROVER_old(g_other_calls) + 1);
 void markSostenutoNotes(int32_t midCh)
 __CPROVER_requires(midCh >= -1 && midCh < (int32_t)g_play.m_midiChannels_size) __CPROVER_assigns(g_other_calls) __CPROVER_ensures(g_other_calls == __CPROVER_old(g_other_calls) + 1);
-/* MIDIchannel::resetAllControllers121 (inline method): resets bend, sensitivity, expression = 127, pedals, vibrato,
- * aftertouch, portamento of THAT channel; volume, brightness, patch untouched */
+/* MIDIchannel::resetAllControllers121 / updateBendSensitivity (inline methods): REAL bodies (extracted with an explicit
+ * self), proved against this contract in their own group */
 void MIDIchannel_resetAllControllers121(MIDIchannel *self)
-__CPROVER_requires(__CPROVER_same_object(self, g_midiChannels_storage))
+__CPROVER_requires(__CPROVER_same_object(self, g_midiChannels_storage) && (size_t)__CPROVER_POINTER_OFFSET(self) < sizeof(g_midiChannels_storage))
+__CPROVER_requires(self->def_bendsense_msb >= 0 && self->def_bendsense_msb <= 255 && self->def_bendsense_lsb >= 0 && self->def_bendsense_lsb <= 255)
 __CPROVER_assigns(*self)
+__CPROVER_ensures(self->bendsense_msb == self->def_bendsense_msb && self->bendsense_lsb == self->def_bendsense_lsb &&
+                  self->def_bendsense_msb == __CPROVER_old(self->def_bendsense_msb) && self->def_bendsense_lsb == __CPROVER_old(self->def_bendsense_lsb))
 __CPROVER_ensures(self->expression == 127 && self->volume == __CPROVER_old(self->volume) && self->brightness == __CPROVER_old(self->brightness) && self->patch == __CPROVER_old(self->patch));
 
-/* MIDIchannel::find_activenote (intrusive list lookup): ASSUMED - returns "not found" (NULL here) or one cell of the
+/* MIDIchannel::find_activenote (intrusive list lookup): ASSUMED behaviour, as a stub WITH A BODY (returned pointers
+ * must be concrete for CBMC's value-set based dereferencing, DESIGN.md A.4): "not found" (NULL) or one cell of the
  * environment; rule R7 rewrites the iterator to a cell pointer and is_end() to a NULL test */
 extern pl_cell_NoteInfo g_note_cell; extern const OpnInstMeta g_cell_instrument; extern MIDIchannel g_chan_win[1];
 _Bool nondet_find_hit(void);
-static pl_cell_NoteInfo *MIDIchannel_find_activenote(MIDIchannel *self, unsigned note)   /* stub WITH A BODY (returned pointers must be concrete, DESIGN.md A.4) */
+static pl_cell_NoteInfo *MIDIchannel_find_activenote(MIDIchannel *self, unsigned note)
 {
     __CPROVER_assert((__CPROVER_same_object(self, g_midiChannels_storage) && (size_t)__CPROVER_POINTER_OFFSET(self) < sizeof(g_midiChannels_storage)) || self == &g_chan_win[0],
                      "CALLEE find_activenote is called on a channel OF the table");
@@ -55,13 +68,14 @@ static pl_cell_NoteInfo *MIDIchannel_find_activenote(MIDIchannel *self, unsigned
     __CPROVER_assume(g_note_cell.value.ains == NULL || g_note_cell.value.ains == &g_cell_instrument);
     return &g_note_cell;
 }
+
 /* CBMC checks an index into a member array reached through a pointer only against the WHOLE object, so
  * noteAftertouch[note] with note >= 128 would pass its bounds check while overwriting sibling fields.  The contract
  * therefore states the frame at field level: apart from noteAftertouch[] and noteAfterTouchInUse every field of the
  * addressed channel keeps its value (ghost copy g_chan_before, typed equality generated from the extracted struct).
  * The addressed channel is a one-element typed window (m_midiChannels = g_chan_win - folded channel): an access to any
  * other channel is an out-of-bounds failure, and no symbolic table index remains in the query. */
-extern MIDIchannel g_chan_win[1]; extern MIDIchannel g_chan_before;
+extern MIDIchannel g_chan_before;
 #define SPEC_FOLD(c) ((size_t)(c) >= ENV_N_MIDI_CHANNELS ? (size_t)(c) % 16 : (size_t)(c))
 static bool spec_chan_same_but_aftertouch(void)
 {
